@@ -223,3 +223,20 @@ Theorem ravel3_bijective d1 d2 d3 x y z x' y' z' :
   0 <= y < d2 -> 0 <= z < d3 -> 0 <= y' < d2 -> 0 <= z' < d3 ->
   ravel3 d1 d2 d3 x y z = ravel3 d1 d2 d3 x' y' z' -> x = x' /\ y = y' /\ z = z'.
 Proof. unfold ravel3. intros. assert (x * d2 + y = x' * d2 + y') by nia. assert (x = x') by nia. subst. lia. Qed.
+
+(* ------------------------------------------------------------ _dim_map_nd *)
+Lemma nd_strides_loop_spec l : forall post y,
+  nd_strides_loop l (row_major (y :: post)) = row_major (y :: rev l ++ post).
+Proof.
+  induction l as [|e l IH]; intros post y; [reflexivity|].
+  cbn [nd_strides_loop rev]. rewrite <- app_assoc. cbn [app].
+  change (row_major (y :: post)) with (prodZ post :: row_major post). cbn [hd].
+  change (e * prodZ post :: prodZ post :: row_major post) with (row_major (y :: e :: post)).
+  apply IH.
+Qed.
+
+Theorem nd_strides_row_major d t : nd_strides (d :: t) = row_major (d :: t).
+Proof.
+  unfold nd_strides. cbn [tl]. change [1] with (row_major [d]).
+  rewrite nd_strides_loop_spec. rewrite rev_involutive, app_nil_r. reflexivity.
+Qed.
